@@ -137,11 +137,12 @@ def _task_spellings(task):
         for style in task["styles"]:
             prefix = ns_prefix_arg(style)
             variants = [(None, False), (None, True), ("all", False), ("all", True)] + [({i}, ws) for i in task["positions"] for ws in task["ws"]]
-            variants = [v + ("lower",) for v in variants] + [(None, False, "title"), (None, True, "upper"), ("all", False, "upper"), ("all", True, "title")]
-            for comments, ws, bool_case in variants:
+            variants = [v + ("lower", False) for v in variants] + [(None, False, "title", False), (None, True, "upper", False), ("all", False, "upper", False),
+                                                                    ("all", True, "title", False), (None, False, "lower", True), ("all", True, "upper", True)]
+            for comments, ws, bool_case, omit in variants:
                 case = {"doc": di, "style": style, "comments": "all" if comments == "all" else sorted(comments) if comments else None,
-                        "whitespace": ws, "bool_case": bool_case}
-                xml = render_xml(doc, style, comments=comments, whitespace=ws, bool_case=bool_case)
+                        "whitespace": ws, "bool_case": bool_case, "omit_defaults": omit}
+                xml = render_xml(doc, style, comments=comments, whitespace=ws, bool_case=bool_case, omit_defaults=omit)
                 t.evals += 1
                 case["form"] = ("BytesIO", "binary file object", "text file object", "str path", "pathlib.Path")[t.evals % 5]
                 try:
@@ -327,7 +328,7 @@ def run(ctx):
         "exhaustive": True,
         "bound": (f"spellings: {len(docs_)} base documents x 6 namespace renderings (prefix xtce, prefix q, an upper-case prefix XTCE, default namespace, none, none + xmlns:xsi) x a comment at every inter-element position "
                   f"({'every position for prefix xtce/default/none, every third for q and none+xsi' if ctx.quick else 'every position'}), all at once, "
-                  f"x whitespace variants x boolean attribute spellings true, True, TRUE, handed over in rotation as BytesIO / binary file object / text file object / str path / pathlib.Path; histories: every sequence of <= {3 if ctx.quick else 4} operations over a {nops}-operation menu "
+                  f"x whitespace variants x boolean attribute spellings true, True, TRUE x (every attribute written | attributes that equal their documented default left out), handed over in rotation as BytesIO / binary file object / text file object / str path / pathlib.Path; histories: every sequence of <= {3 if ctx.quick else 4} operations over a {nops}-operation menu "
                   "(11 successful loads in different namespace conventions, two of them of documents with identical names and shape but different content, 3 wrong-prefix loads, 4 loads that fail late inside the container/parameter set, 2 malformed inputs) followed by every target load (histories of length 4: every third target); "
                   "breadth-first closure over the real class-level namespace state to a fixed point"),
         "rule": ("one evaluation = one load compared with the fresh-interpreter canonical form; states = reachable class-level (nsmap, prefix) states "
@@ -353,7 +354,7 @@ def replay(case):
     comments = case.get("comments")
     comments = "all" if comments == "all" else set(comments) if comments else None
     doc = base_docs()[case["doc"]]
-    xml = render_xml(doc, case["style"], comments=comments, whitespace=case["whitespace"], bool_case=case.get("bool_case", "lower"))
+    xml = render_xml(doc, case["style"], comments=comments, whitespace=case["whitespace"], bool_case=case.get("bool_case", "lower"), omit_defaults=case.get("omit_defaults", False))
     try:
         forms = ("BytesIO", "binary file object", "text file object", "str path", "pathlib.Path")
         d = load_form(xml, ns_prefix_arg(case["style"]), doc.root, forms.index(case["form"]) if case.get("form") in forms else 0)
